@@ -214,6 +214,36 @@ def classic_T(lg, case, seed):
     return np.array(cols).T, info
 
 
+def classic_T_zero_start(lg, case, seed):
+    """SamplingEnabler(likelihood metric, prior metric, ic, start_from_zero=True) built directly on the
+    likelihood metric at the expansion point (the option is not used inside the library)."""
+    import nifty.cl as ift
+    H, mean, doms = classic_model(lg, case)
+    lhx = H.likelihood_energy(ift.Linearization.make_var(mean, want_metric=True))
+    prior = ift.ScalingOperator(mean.domain, 1., np.float64)
+    ic = ift.AbsDeltaEnergyController(1e-15, iteration_limit=500, convergence_level=3)
+    se = ift.SamplingEnabler(lhx.metric, prior, ic, start_from_zero=True)
+
+    def draw(white):
+        def go():
+            with L.classic_feed_flat(white) as sizes:
+                y, x = se.special_draw_sample(from_inverse=True)
+            return flat_mf(x, case), flat_mf(se(x) - y, case), list(sizes)
+        return _quiet(go)
+    _, _, sz0 = draw(None)
+    K = sum(sz0)
+    cols, resid = [], 0.0
+    for i in range(K):
+        white = np.zeros(K)
+        white[i] = 1.0
+        col, r, sz = draw(white)
+        if sz != sz0:
+            raise RuntimeError("white-noise requests changed between runs")
+        cols.append(col)
+        resid = max(resid, float(np.abs(r).max()))
+    return np.array(cols).T, {"sizes": sz0, "residual": resid}
+
+
 def jax_T(lg, case, seed):
     import jax
     from nifty.re import evi
@@ -260,6 +290,8 @@ def factor_failure(lg, case, T, info, api):
     err = np.abs(Tl @ Tl.T @ A - np.eye(mask.sum())).max()
     if err > TOL_T:
         return "|T T^T (M + 1) - 1| = %.3e on the sampled block" % err
+    if api == "cl0" and info["residual"] > 1e-9:
+        return "start_from_zero=True: the returned inverse sample does not solve metric @ x = b (residual %.3e)" % info["residual"]
     if api == "re":
         ks = info["keys"]
         if len(ks) != 2 or ks[0] == ks[1] or info["inkey"] in ks:
@@ -354,6 +386,16 @@ def jax_samples_and_geo(lg, case, seed, n_samples=2):
                   cg_kwargs=dict(name=None, **L.CG_TIGHT))
         upd, _ = _quiet(lambda: opt.nonlinearly_update_samples(lin, point_estimates=pe, minimize_kwargs=mk))
         out["geo"] = np.array([flat_vec(jax.tree_util.tree_map(lambda a: a[i], upd._samples), case) for i in range(len(upd))])
+    # the driver's own entry point over two iterations: resample linearly, then `nonlinear_update`
+    # (same number of samples, so the update branch is really taken); point estimates must stay frozen
+    mk2 = dict(name=None, xtol=1e-13, absdelta=None, miniter=1, maxiter=25, cg_kwargs=dict(name=None, **L.CG_TIGHT))
+    dkw = dict(point_estimates=pe, draw_linear_kwargs=dict(cg_name=None, cg_kwargs=dict(L.CG_TIGHT)),
+               nonlinearly_update_kwargs=dict(minimize_kwargs=mk2), n_samples=n_samples)
+    s0, _ = _quiet(lambda: opt.draw_samples(jft.Samples(pos=pos, samples=None, keys=None), key=jax.random.PRNGKey(seed + 31),
+                                            sample_mode="linear_resample", **dkw))
+    s1, _ = _quiet(lambda: opt.draw_samples(s0, key=jax.random.PRNGKey(seed + 37), sample_mode="nonlinear_update", **dkw))
+    out["drv_lin"] = np.array([flat_vec(jax.tree_util.tree_map(lambda a: a[i], s0._samples), case) for i in range(len(s0))])
+    out["drv_upd"] = np.array([flat_vec(jax.tree_util.tree_map(lambda a: a[i], s1._samples), case) for i in range(len(s1))])
     # Wiener filter of the model linearised at the (non-zero) expansion point p: the samples must be
     # exact posterior samples of the linearised model, in particular centred on its posterior mean
     if True:
@@ -467,15 +509,17 @@ class C18(C.Check):
         self.obs_T = []
         for case in cases:
             lg = L.LG(case)
-            for api in ("cl", "re"):
+            for api in ("cl", "re", "cl0"):
+                fn = {"cl": classic_T, "re": jax_T, "cl0": classic_T_zero_start}[api]
+                ecase = case if api != "cl0" else dict(case, pe=[], napprox=0)
                 try:
-                    T, info = (classic_T if api == "cl" else jax_T)(lg, case, ctx.seed)
+                    T, info = fn(lg, ecase, ctx.seed)
                     err = None
                 except Exception as e:
                     T, info, err = None, None, "%s: %s\n%s" % (type(e).__name__, str(e)[:300], traceback.format_exc()[-800:])
-                self.obs_T.append((case, api, T, info, err))
-                checks.append("false" if err or not np.all(np.isfinite(T)) else factor_term(lg, case, T))
-                meta.append((api + ".factor", case))
+                self.obs_T.append((ecase, api, T, info, err))
+                checks.append("false" if err or not np.all(np.isfinite(T)) else factor_term(lg, ecase, T))
+                meta.append((api + ".factor", ecase))
         timing["factors_s"] = round(time.time() - t0, 1)
         t0 = time.time()
         # ---- (3)/(4) mirrored samples, geoVI on linear models ----
@@ -498,6 +542,20 @@ class C18(C.Check):
             cl_geo += pool[:want]
         jobs += [(case, "cl") for case in cl_geo]
         jobs += [(case, "re") for case in cl_geo if case not in cases[:nS]]
+        # the driver route needs point estimates: make sure two such models are among the JAX jobs
+        have = [c for c, a in jobs if a == "re" and c["pe"]]
+        rng_pe = ctx.rng(1811)
+        k = 0
+        pool = [c for c in cases if c["pe"] and c not in have]
+        while len(have) < 2:
+            if pool:
+                c = pool.pop(0)
+            else:
+                c = gen_case(rng_pe, 600 + k)
+                k += 1
+                c["pe"] = ["b"] if k % 2 else ["a"]
+            have.append(c)
+            jobs.append((c, "re"))
         for case, api in jobs:
             lg = L.LG(case)
             if True:
@@ -520,6 +578,9 @@ class C18(C.Check):
                 if "geo" in o:
                     checks.append("residuals_close %s %s %s" % (TOL_GEO_Q, rows(o["lin"]), rows(o["geo"])))
                     meta.append((api + ".geovi_linear", case))
+                if "drv_upd" in o and not case["nonlinear"]:
+                    checks.append("residuals_close %s %s %s" % (TOL_GEO_Q, rows(o["drv_lin"]), rows(o["drv_upd"])))
+                    meta.append(("re.driver_nonlinear_update", case))
                 if "wf_pos" in o:
                     Qm = lg.Q if case["nonlinear"] else [[Fr(0)] * lg.n for _ in range(lg.m)]
                     cc = lg.c if case["nonlinear"] else [Fr(0)] * lg.m
@@ -604,7 +665,8 @@ class C18(C.Check):
             lg = L.LG(case)
             f = ("sampler raised: " + err.split("\n")[0]) if err else factor_failure(lg, case, T, info, api)
             if f:
-                fail({"api": api, "fn": "linear_sample"}, "%s: %s" % (api, f), {"kind": "factor", "api": api, "case": case, "seed": ctx.seed})
+                fail({"api": api[:2], "fn": "linear_sample" if api != "cl0" else "SamplingEnabler.start_from_zero"},
+                     "%s: %s" % (api, f), {"kind": "factor", "api": api, "case": case, "seed": ctx.seed})
         # samples
         for case, api, o, err in self.obs_S:
             n += 1
@@ -658,7 +720,8 @@ class C18(C.Check):
         lg = L.LG(case)
         try:
             if i["kind"] == "factor":
-                T, info = (classic_T if api == "cl" else jax_T)(lg, case, i.get("seed", 0))
+                fn = {"cl": classic_T, "re": jax_T, "cl0": classic_T_zero_start}[api]
+                T, info = fn(lg, case, i.get("seed", 0))
                 f = factor_failure(lg, case, T, info, api)
             else:
                 o = jax_samples_and_geo(lg, case, i.get("seed", 0)) if api == "re" else classic_geo(lg, case, i.get("seed", 0))
@@ -689,6 +752,13 @@ def samples_failure(case, api, o):
             return "geometric samples carry neg flags"
     if np.any(lin[:, ~mask] != 0):
         return "point-estimated components of residuals are not zero"
+    if "drv_upd" in o:
+        if np.any(o["drv_lin"][:, ~mask] != 0) or np.any(o["drv_upd"][:, ~mask] != 0):
+            return "OptimizeVI.draw_samples (linear_resample -> nonlinear_update): point-estimated keys have non-zero residuals (max %.3e)" \
+                % max(np.abs(o["drv_lin"][:, ~mask]).max(), np.abs(o["drv_upd"][:, ~mask]).max())
+        if not case["nonlinear"] and np.abs(o["drv_upd"] - o["drv_lin"]).max() > TOL_GEO:
+            return "OptimizeVI.draw_samples: nonlinear_update changed the samples of a linear model by %.3e" \
+                % np.abs(o["drv_upd"] - o["drv_lin"]).max()
     if "wf_pos" in o:
         lg = L.LG(case)
         J, de = lg.np_lin() if case["nonlinear"] else (lg.f("R"), lg.f("d"))
